@@ -1,4 +1,13 @@
-"""Per-property configuration of the check driver."""
+"""Per-property configuration of the check driver.
+
+Every check lives in checks/<id>/ with its harness (main.go), its driver
+configuration (config.py defining CHECK) and its demonstration mutations
+(mutations.py defining MUTATIONS).  This module collects the CHECK dicts.
+"""
+import glob
+import os
+
+HERE = os.path.dirname(os.path.abspath(__file__))
 
 E3_ASSUME = [
     "scheduling points are the synchronisation operations (mutex, atomics, sync.Map, sync.Pool, channel "
@@ -7,79 +16,56 @@ E3_ASSUME = [
     "sequential consistency at synchronisation points",
 ]
 
-ENGINES = [
-    {"name": "E1 enum", "path": "engine/enum", "serves_properties": [],
-     "kind_free_text": "bounded exhaustive input enumeration against a reference model"},
-    {"name": "E2 explore", "path": "engine/explore", "serves_properties": [],
-     "kind_free_text": "choice-vector DFS with deviation bounding; BFS-with-replay over reference-model states"},
-    {"name": "E3 verifsched", "path": "engine/verifsched", "serves_properties": ["C17"],
-     "kind_free_text": "stateless model checking of the real code: cooperative scheduler + sync/atomic/channel shims "
-                       "injected by go build -overlay, iterative preemption bounding"},
-    {"name": "rewrite", "path": "engine/rewrite", "serves_properties": ["C17"],
-     "kind_free_text": "overlay generator: import substitution and channel/select/go rewriting (go/ast, go/types)"},
-]
-
-NOT_APPLICABLE = {}
-
 E1_ASSUME = [
     "inputs outside the enumerated families (longer strings over the class alphabet, byte classes the alphabet does "
     "not contain, more than the stated number of deviations from canonical shapes) are not covered",
     "the reference side uses the same binary's standard library, so a toolchain change cannot split the two sides",
 ]
 
+E1_TECHNIQUE = ("bounded exhaustive input enumeration (all strings / token sequences / deviations up to a bound) "
+                "against an independent reference model")
+E2_TECHNIQUE = ("bounded exhaustive exploration of operation sequences and environment answers (choice-vector DFS with "
+                "deviation bounding, BFS-with-replay over reference-model states) against a reference model")
+E3_TECHNIQUE = ("stateless model checking: exhaustive schedule enumeration of the real code under a cooperative "
+                "scheduler with iterative preemption bounding")
 
-def e1(pid, pkg, rule, bq, bt, text, note, design, extra_assume=()):
+
+def e1(pkg, rule, bq, bt, text, note, design, extra_assume=()):
+    """Configuration of a plain E1 check."""
     return {
         "engine": "E1 enum", "design_ref": design, "level": "exploration",
-        "technique": "bounded exhaustive input enumeration (all strings/token sequences/deviations up to a bound) "
-                     "against an independent reference model",
+        "technique": E1_TECHNIQUE,
         "level_text": text, "level_note": note, "rule": rule, "bounds_quick": bq, "bounds_thorough": bt,
         "assumptions": E1_ASSUME + list(extra_assume),
         "stages": [{"name": "enum", "pkg": pkg}],
     }
 
 
-CHECKS = {
-    "C02": e1(
-        "C02", "./checks/c02",
-        rule="every string of the enumerated families is evaluated by the validator and by its reference parser "
-             "(netip.ParseAddr, netip.ParseAddrPort, ValidateHostname, ValidateHostnameLabel) in the same binary; "
-             "non-trivial = accepted by at least one side or containing a ':' or '.' separator; distinct = injective "
-             "enumeration for the all-strings family, hash-deduplicated (and disjoint from it) for the others",
-        bq="all strings <=6 over the 15-symbol IP alphabet; field/separator sequences <=4 fields; <=2 token deviations "
-           "from every canonical IPv4/IPv6 shape (0..9 fields x every ellipsis position x IPv4 tail), <=1 deviation x "
-           "zone suffixes x 47 port wrappings; names: all strings <=4 over 15 symbols, <=5 over 10 symbols, boundary "
-           "families around 16/63/253",
-        bt="as quick with strings <=7, sequences <=5 fields, names <=5 / <=6",
-        text="The validators are compared with their reference parsers on every input of a bounded, class-complete "
-             "input space (about 10^7 quick, 2*10^8 thorough), which covers every near-miss of the grammars that a "
-             "handful of table rows cannot.",
-        note="Trusted: net/netip and the Validate* twins as reference; the alphabet is read off the source's byte classes.",
-        design="DESIGN.md 2.1, 3 (C02)"),
-    "C17": {
-        "engine": "E3 verifsched",
-        "design_ref": "DESIGN.md 2.3, 3 (C17)",
-        "technique": "stateless model checking: exhaustive schedule enumeration of the real code under a cooperative "
-                     "scheduler with iterative preemption bounding",
-        "level_text": "Every interleaving at synchronisation points of 2-thread programs (and of 3-thread programs up to "
-                      "a preemption bound) over the real OnceConstructor and ChanSemaphore is executed and checked "
-                      "against exactly-once / same-result / no-deadlock / holder-bound oracles; schedules are what the "
-                      "property quantifies over and tests cannot control them.",
-        "level_note": "Trusted: the shims' model of sync.Map, channels and select (sequentially consistent, select "
-                      "choice and rendezvous partner enumerated); bounded to 2-4 threads x 1-2 operations.",
-        "level": "model_checking",
-        "rule": "every schedule (thread choice at every synchronisation point, every ready select case, every "
-                "rendezvous partner) of each enumerated scenario on the real syncutil code under the cooperative "
-                "scheduler, iterating the preemption bound until nothing is skipped (exhausted) or the class cap; "
-                "evaluations = executions; distinct_nontrivial = distinct (scenario, observable history) pairs",
-        "bounds_quick": "2x<=2 Gets, 3x1 Get, semaphore 2 workers: exhausted; 3 threads x 2: preemption bound 2",
-        "bounds_thorough": "as quick, 3-thread classes to preemption bound 4, plus 4 threads x 1 Get",
-        "assumptions": E3_ASSUME,
-        "stages": [{
-            "name": "sched", "pkg": "./checks/c17",
-            "sync": ["syncutil/onceconstructor.go"],
-            "chan": ["syncutil/onceconstructor.go", "syncutil/sema.go"],
-            "gomaxprocs": 1,
-        }],
-    },
-}
+ENGINES = [
+    {"name": "E1 enum", "path": "engine/enum", "serves_properties": [],
+     "kind_free_text": "bounded exhaustive input enumeration against a reference model"},
+    {"name": "E2 explore", "path": "engine/explore", "serves_properties": [],
+     "kind_free_text": "choice-vector DFS with deviation bounding; BFS-with-replay over reference-model states"},
+    {"name": "E3 verifsched", "path": "engine/verifsched", "serves_properties": [],
+     "kind_free_text": "stateless model checking of the real code: cooperative scheduler + sync/atomic/channel shims "
+                       "injected by go build -overlay, iterative preemption bounding"},
+    {"name": "E4 racematrix", "path": "checks/c10/race", "serves_properties": [],
+     "kind_free_text": "operation-pair matrix run free under the Go race detector (complement of E3)"},
+    {"name": "rewrite", "path": "engine/rewrite", "serves_properties": [],
+     "kind_free_text": "overlay generator: import substitution and channel/select/go rewriting (go/ast, go/types)"},
+]
+
+NOT_APPLICABLE = {}
+
+CHECKS = {}
+for _p in sorted(glob.glob(os.path.join(HERE, "checks", "*", "config.py"))):
+    _ns = {"e1": e1, "E1_ASSUME": E1_ASSUME, "E3_ASSUME": E3_ASSUME, "E1_TECHNIQUE": E1_TECHNIQUE,
+           "E2_TECHNIQUE": E2_TECHNIQUE, "E3_TECHNIQUE": E3_TECHNIQUE}
+    with open(_p) as _f:
+        exec(compile(_f.read(), _p, "exec"), _ns)
+    _pid = os.path.basename(os.path.dirname(_p)).upper()
+    CHECKS[_pid] = _ns["CHECK"]
+
+for _e in ENGINES:
+    _e["serves_properties"] = sorted(k for k, v in CHECKS.items() if v["engine"].split()[0] == _e["name"].split()[0]
+                                     or (_e["name"] == "rewrite" and v["engine"].startswith("E3")))
